@@ -33,7 +33,7 @@ def run(ctx):
     sc.sched_check(
         ctx, so.c11, ['farm', 'mixed'], nontrivial,
         rule='random engines x random histories of registrations (matching / stale revision, 3 hosts), disconnects, status polls, dispatch ticks, activity flips, organize and replies; non-trivial = a tick with queued work and a worker pool mixing eligible and ineligible (stale, dropped, tasked) workers, or while inactive')
-    if not ctx.replay:
+    if not ctx.replay and not ctx.nviol:
         sc.fault_study(ctx, so.c11)
 
 
